@@ -102,6 +102,11 @@ class ConfigRejected(Exception):
     pass
 
 
+class NonFiniteData(Exception):
+    """torch produced non-finite activations/gradients for finite inputs (seen sporadically with bfloat16 CPU kernels);
+    the case is outside every property's quantifier and is skipped (counted)."""
+
+
 class Session:
     def __init__(self, rng, cfg, *, model=None, in_shape=None, unsupported=True, allow_conv=True, small=True, with_ref=True, skip_layers=None):
         self.cfg = cfg
@@ -144,6 +149,9 @@ class Session:
         loss = gen.loss_fn(self.cfg['loss'], out, self.gen)
         scale = self.cfg.get('scale') or 1.0
         (loss * scale).backward()
+        for t in list(self.capture.inp.values()) + list(self.capture.gout.values()):
+            if not torch.isfinite(t).all():
+                raise NonFiniteData()
         if self.ref is not None and train and self.model.training:
             self.ref.forward_backward(self.capture.moments(scale))
         return out
